@@ -521,12 +521,14 @@ def _wallet_history(ctx: Ctx, rng: SimRng) -> None:
                     info = w.address_info(a)
                 ctx.check(P, "info-is-recorded-address", info.address == a, "address_info returned another address")
             else:
+                far = expect_address(b, 50 + ch.draw(5, "far"))
                 try:
-                    w.address_info(expect_address(b, 50 + ch.draw(5, "far")))
+                    w.address_info(far)
                     hit = True
                 except LIB_ERRORS:
                     hit = False
-                ctx.check(P, "unknown-address-not-in-ledger", not hit, "address_info answered for an address never handed out")
+                # (a long enough run of next_address does reach index 50: the model, not the index, says what is unknown)
+                ctx.check(P, "unknown-address-not-in-ledger", hit == (far in ledger), lambda: f"address_info {'answered' if hit else 'refused'} for an address the model says was {'handed out' if far in ledger else 'never handed out'}")
             ctx.check(P, "read-only-leaves-ledger", snapshot() == before, "address_info changed the ledger")
         elif op == "contains":
             a = expect_address(b, ch.draw(10, "index"))
